@@ -127,6 +127,8 @@ pub mod k {
     pub const NEW_MAX_UNI: i128 = 94;
     pub const RESET_FORGE: i128 = 95; // 1: whenever the client puts a long-header datagram on the wire, the attacker sends it a short-header datagram addressed to that datagram's source CID and ending in the token of a stateless reset it has OBSERVED earlier (a token that belongs to some other, older connection ID)
     pub const CLOSE_REASON_LEN: i128 = 96; // length of the reason phrase of the application close (default 3)
+    pub const SPOOF_FRESH_AT: i128 = 97; // us: the first client datagram put on the wire at or after this instant reaches the server ONLY as a copy from the attacker's address (the original is lost): the server sees a fresh, highest-numbered packet from a foreign address once
+    pub const SPOOF_FRESH_BLACKOUT: i128 = 98; // us: after that spoofed copy every client datagram is lost for this long
     pub const DGRAM_START: i128 = 81; // us: application datagrams are not sent before this instant
     pub const RECONNECT: i128 = 70; // open this many further client connections, one per drained connection (slot reuse)
 }
@@ -341,6 +343,8 @@ pub struct World {
     retry2_done: bool,
     quiet: bool,
     seen_server_cids: Vec<Vec<u8>>,
+    spoof_fresh_done: bool,
+    spoof_fresh_t: u64,
 }
 
 /// long-header Initial (QUIC v1) whose token is not empty
@@ -520,6 +524,8 @@ impl World {
             retry2_done: false,
             quiet: false,
             seen_server_cids: Vec::new(),
+            spoof_fresh_done: false,
+            spoof_fresh_t: 0,
             p,
         };
         let (cert, key) = load_cert();
@@ -823,6 +829,22 @@ impl World {
                     }
                 }
             }
+        }
+        let sfa = self.p.get(k::SPOOF_FRESH_AT, 0);
+        if self.spoof_fresh_done && src_ep == 0 && self.now < self.spoof_fresh_t + self.p.get(k::SPOOF_FRESH_BLACKOUT, 0).max(0) as u64 {
+            self.trace.push(vec![9, t, idx as i128, 1, sid, did, size]);
+            return;
+        }
+        if sfa > 0 && !self.spoof_fresh_done && src_ep == 0 && self.now as i128 >= sfa {
+            self.spoof_fresh_done = true;
+            self.spoof_fresh_t = self.now;
+            let asrc = SocketAddr::new(IpAddr::V4(Ipv4Addr::new(10, 6, 6, 6)), 6666);
+            let aid = self.addr_id(asrc);
+            self.seq += 1;
+            self.net.push(Pkt { at: self.now + dmin, seq: self.seq, src: asrc, dst, ecn, data: data.clone(), origin, kind: 6 });
+            self.trace.push(vec![9, t, idx as i128, 6, aid, did, size]);
+            self.trace.push(vec![9, t, idx as i128, 1, sid, did, size]);
+            return;
         }
         let fair = self.p.get(k::FAIR_RUN, 0);
         let mut lose = self.rng.chance(loss);
